@@ -58,7 +58,7 @@ def event_id_seq(eid: int) -> int:
 
 
 class Ev:
-    __slots__ = ("k", "type", "ctx", "payload", "ts", "life", "step", "state", "eid", "idx", "stored")
+    __slots__ = ("k", "type", "ctx", "payload", "ts", "life", "step", "state", "eid", "idx", "stored", "vclass")
 
     def __init__(self, k, type_, ctx, payload, ts, life, step, idx, stored=None):
         self.k = k
@@ -71,6 +71,7 @@ class Ev:
         self.step = step
         self.state = "must"           # must | may (in flight at a crash) | gone (resolved absent)
         self.eid = None
+        self.vclass = None
         self.idx = idx                # global apply index
 
     def __repr__(self):
